@@ -593,7 +593,7 @@ func (g *gen) validMsg(s *vh.Acct) sdk.Msg {
 	case 6:
 		return distrtypes.NewMsgSetWithdrawAddress(s.Acc(), other.Acc())
 	case 7:
-		return distrtypes.NewMsgFundCommunityPool(sdk.NewCoins(coin), s.Acc())
+		return distrtypes.NewMsgFundCommunityPool(sdk.NewCoins(coin), s.Bech32())
 	case 8:
 		m, err := govv1.NewMsgSubmitProposal([]sdk.Msg{banktypes.NewMsgSend(sdk.MustAccAddressFromBech32(gov), other.Acc(), sdk.NewCoins(coin))}, sdk.NewCoins(coin), s.Bech32(), "meta", "title", "summary", r.Bool())
 		if err == nil {
